@@ -21,6 +21,14 @@ def explore(chk):
     N = 400 if chk.tier == "quick" else 10000
     progs = [sccgen.gen_rollup(rng, paint=(i % 3 == 2), rich=(i % 2 == 1)) for i in range(N)]
     progs += [sccgen.gen_mixed(rng, rich=(i % 2 == 1)) for i in range(N // 4)]
+    # rows holding the basic set's non-ASCII cells (accented letters, the division sign), in all modes
+    asub = chk.sub("basic_set_non_ascii_cells")
+    sccgen.ACCENT_RNG = asub
+    try:
+        progs += [sccgen.gen_rollup(asub, paint=(i % 2 == 1), rich=(i % 4 == 3)) for i in range(N // 10)]
+        progs += [sccgen.gen_mixed(asub) for i in range(N // 40)]
+    finally:
+        sccgen.ACCENT_RNG = None
     # paint-on cues painted on consecutive rows under ONE resume-direct-captioning command, a later row beginning with an
     # extended character sent without a stand-in (nothing is on that row yet, so nothing is replaced)
     xsub = chk.sub("paint_rows_starting_with_extended")
